@@ -95,8 +95,8 @@ def replay_dense(vals, thr, ns, nf, con8):
     import ctypes as C
     L = creplay.lib(); data = np.array(vals, np.float32).reshape(ns, nf); mask = (data > np.float32(thr)).ravel().tolist()
     bad = []
-    lab = np.full((ns, nf), 7, np.int32); L.connectedpixels.restype = C.c_int
-    r = L.connectedpixels(creplay.fptr(data), creplay.iptr(lab), C.c_float(thr), 0, con8, ns, nf)
+    lab = np.full((ns, nf), 7, np.int32); L.verif_connectedpixels.restype = C.c_int
+    r = L.verif_connectedpixels(creplay.fptr(data), creplay.iptr(lab), C.c_float(thr), 0, con8, ns, nf)
     bad += judge(lab.ravel().tolist(), r, mask, ns, nf, con8, "dense(real)")
     if con8:
         i = np.repeat(np.arange(ns), nf).astype(np.uint16); j = np.tile(np.arange(nf), ns).astype(np.uint16)
@@ -232,10 +232,10 @@ def replay_dset(cap, nnew):
     """the same unit sequence on the real blobs.c build"""
     import ctypes as C
     L = creplay.lib()
-    L.dset_initialise.restype = C.POINTER(C.c_int32); L.dset_new.restype = C.POINTER(C.c_int32); L.dset_compress.restype = C.POINTER(C.c_int32)
-    S = L.dset_initialise(cap); v = C.c_int32(0); bad = []
+    L.verif_dset_initialise.restype = C.POINTER(C.c_int32); L.verif_dset_new.restype = C.POINTER(C.c_int32); L.verif_dset_compress.restype = C.POINTER(C.c_int32)
+    S = L.verif_dset_initialise(cap); v = C.c_int32(0); bad = []
     for n in range(1, nnew + 1):
-        pS = C.pointer(S); S = L.dset_new(C.byref(S), C.byref(v))
+        pS = C.pointer(S); S = L.verif_dset_new(C.byref(S), C.byref(v))
         capn = S[0]
         if v.value != n or S[capn - 1] != n or any(S[i] != i for i in range(1, n + 1)):
             bad.append("after %d inserts (initial capacity %d): v=%d count=%d S[1..n]=%s" % (n, cap, v.value, S[capn - 1], [S[i] for i in range(1, n + 1)])); break
@@ -333,4 +333,4 @@ def footprint_relabel(ck, modo):
     else: ck.undecided("relabel loop footprint", "conflicts %s" % conflicts[:3])
 
 if __name__ == "__main__":
-    main()
+    common.run_main(main)
